@@ -25,6 +25,13 @@ theorem gen_tunnel_recv : Gen.C18.tunnelRecvCompares = ["len(data) > 0"] ∧
 theorem gen_enum_members : cpxTargetSTM32 ∈ Gen.C18.targetValues ∧ cpxTargetHOST ∈ Gen.C18.targetValues ∧
     cpxFunctionCRTP ∈ Gen.C18.functionValues := by decide
 
+/-- the transport object keeps no receive state: the only attribute its methods store is the socket itself (set by
+`connect`, cleared by `disconnect`), `_readData` accumulates in a local; so a new connection starts from an empty
+buffer and `readPackets` on the new stream (theorem `reassembly`) is the whole story after a reconnect -/
+theorem gen_sock_object_state : Gen.C18.sockObjectState =
+    ["__init__: self._host,self._port", "connect: self._socket", "disconnect: self._socket", "writePacket: -",
+     "_readData: -", "readPacket: -"] ∧ Gen.C18.sockClassLevel = [] := by decide
+
 theorem gen_router_loop : Gen.C18.routerHandlers = ["Exception"] ∧ Gen.C18.routerHandlerLeavesLoop = false ∧
     Gen.C18.routerTryInsideLoop = true := by decide
 
